@@ -30,7 +30,7 @@ EVENTS = (["next-timer", "+100ms", "user-send"]
           + [f"notify({k},{o:+d})" for k in ("genuine", "forged") for o in OFFSETS]
           + ["sync-reply", "sync-reply-twice", "sync-reply-wrong-tag", "sync-reply-forged"]
           + [f"wrapped-indication({k},{o:+d})" for k in ("genuine", "forged") for o in OFFSETS]
-          + ["plain-frames-of-every-service"])
+          + ["plain-frames-of-every-service", "wrapped-unparsable-inner-frames"])
 # services a secure multicast node still has to accept unencrypted (03.08.09: discovery and self description)
 PLAIN_ALLOWED = {0x0201, 0x0202, 0x0203, 0x0204, 0x020B, 0x020C}
 CEMI = bytes.fromhex("2900bcd011010901010081")
@@ -126,6 +126,20 @@ def make(steps: int, uniform_max: bool):
                             raw = raw[:-1] + bytes((raw[-1] ^ 1,))
                         timely = timer > local_timer() - LATENCY_MS
                         feed(raw, ev, kind == "genuine", kind == "genuine" and timely and st.timer_authenticated)
+                    elif ev == "wrapped-unparsable-inner-frames":
+                        # authentic, timely wrappers whose content the library cannot parse: they must be dropped, not raise
+                        inners = [
+                            bytes.fromhex("0610053300100000") + bytes(8),                      # ROUTING_SYSTEM_BROADCAST (not implemented)
+                            bytes.fromhex("061009990006"),                                       # unknown service
+                            bytes.fromhex("06100530000f") + CEMI[:9],                            # RoutingIndication with a truncated cEMI
+                            bytes.fromhex("061105300011") + CEMI,                                # wrong protocol version
+                            bytes.fromhex("0610053000ff") + CEMI,                                # announced length beyond the content
+                            b"",                                                                 # nothing inside
+                        ]
+                        for i, inner in enumerate(inners):
+                            timer = local_timer() + 10 + i
+                            raw = ipsec.wrap(KEY, 0, timer.to_bytes(6, "big"), PEER_SERIAL, b"\x33\x44", inner)
+                            feed(raw, f"wrapped-unparsable#{i}", True, None if i == 2 else False)  # (#2 is a well-formed RoutingIndication at this layer)
                     else:
                         for plain in valid_frames():
                             service = int.from_bytes(plain[2:4], "big")
@@ -186,7 +200,7 @@ def run(ctx: Ctx) -> None:
     ctx.rule = (
         f"real SecureRouting/SecureGroup/SecureSequenceTimer from connect() on (timer synchronisation running), in-memory multicast, random.uniform owned by the harness (min and max), "
         f"{steps} environment steps; every schedule with <= {bound} events other than 'next timer' from: +100 ms, user send, TimerNotify genuine/forged at local timer {OFFSETS} ms, "
-        "the reply to our synchronisation tag (once, twice, wrong tag, forged), wrapped RoutingIndication genuine/forged at the same offsets, one plain frame of every service type. "
+        "the reply to our synchronisation tag (once, twice, wrong tag, forged), wrapped RoutingIndication genuine/forged at the same offsets, one plain frame of every service, authentic wrappers around unparsable content type. "
         "Frames are built by the independent reference. Oracle: nothing raises; only authentic frames move the timer and never backwards; wrapped frames are forwarded iff authentic, timely "
         "(> local - 1000 ms) and after synchronisation; plain frames only for discovery/description; everything sent is an authentic wrapper or TimerNotify with non-decreasing timer"
     )
